@@ -281,6 +281,7 @@ type c10Method struct {
 	seq       string
 	panicCond string
 	seqCond   string
+	guards    []string // "panic" / "sequential" in source order
 	defs      []c10Def
 	workers   string
 	goArgs    [2]string
@@ -374,6 +375,9 @@ func c10ExtractMethod(fset *token.FileSet, fd *ast.FuncDecl, all map[string]*ast
 			if s.Init != nil || s.Else != nil {
 				return nil, c10err(fset, st, "%s: if with init/else", m.name)
 			}
+			if sawLoop {
+				return nil, c10err(fset, st, "%s: guard after the worker loop", m.name)
+			}
 			cond, err := c10Cond(fset, s.Cond, env)
 			if err != nil {
 				return nil, err
@@ -383,6 +387,7 @@ func c10ExtractMethod(fset *token.FileSet, fd *ast.FuncDecl, all map[string]*ast
 					return nil, c10err(fset, st, "%s: second panic guard", m.name)
 				}
 				m.panicCond = cond
+				m.guards = append(m.guards, "panic")
 				continue
 			}
 			if len(s.Body.List) == 1 {
@@ -393,6 +398,7 @@ func c10ExtractMethod(fset *token.FileSet, fd *ast.FuncDecl, all map[string]*ast
 								return nil, c10err(fset, st, "%s: second early return", m.name)
 							}
 							m.seq, m.seqCond = sel.Sel.Name, cond
+							m.guards = append(m.guards, "sequential")
 							continue
 						}
 					}
@@ -1004,6 +1010,16 @@ func c10Mesh(fset *token.FileSet, o *c10Out, path string) error {
 		o.p("/-- `if <cond> { return m.%s(...) }` -/", m.seq)
 		o.p("def delegates (size : Int) : Prop := %s", m.seqCond)
 		o.p("instance (size : Int) : Decidable (delegates size) := by unfold delegates; infer_instance")
+		o.p("/-- which branch of the method body runs for a pool size: the guards in SOURCE ORDER, then the worker loop -/")
+		pathExpr := "Path.workers"
+		for k := len(m.guards) - 1; k >= 0; k-- {
+			if m.guards[k] == "panic" {
+				pathExpr = "if panics size then Path.panic else " + pathExpr
+			} else {
+				pathExpr = "if delegates size then Path.sequential else " + pathExpr
+			}
+		}
+		o.p("def path (size : Int) : Path := %s", pathExpr)
 		for _, d := range m.defs {
 			o.p("def %s %s : %s := %s", d.name, d.params, d.typ, d.body)
 		}
@@ -1106,6 +1122,19 @@ func c10Mesh(fset *token.FileSet, o *c10Out, path string) error {
 		o.p("end %s", m.seq)
 		o.p("")
 	}
+	o.p("/-- control flow of every method: pool size ↦ branch taken -/")
+	o.p("def paths : List (String × (Int → Path)) := [")
+	for i, m := range methods {
+		sep := ","
+		if i == len(methods)-1 {
+			sep = ""
+		}
+		o.p("  (%q, %s.path)%s", m.name, m.name, sep)
+	}
+	o.p("]")
+	if err := c10PrimitiveCount(fset, o, file, all); err != nil {
+		return err
+	}
 	o.p("/-- every `*ParallelWithPoolSize` method of Mesh, in source order -/")
 	o.p("def methodNames : List String := %s", c10StrList(names))
 	o.p("/-- lookup used by the driver: one partition spec per method (and per topology for the primitive scan) -/")
@@ -1120,5 +1149,128 @@ func c10Mesh(fset *token.FileSet, o *c10Out, path string) error {
 	}
 	o.p("]")
 	o.p("")
+	return nil
+}
+
+// c10PrimitiveCount: `Mesh.PrimitiveCount()` per topology as a function of len(m.indices), with `Topology.IndexSize()`
+// (modeling/topology.go) inlined per topology.  The element count `n` of the primitive scans is this value.
+func c10PrimitiveCount(fset *token.FileSet, o *c10Out, file *ast.File, all map[string]*ast.FuncDecl) error {
+	fd := all["PrimitiveCount"]
+	if fd == nil {
+		return fmt.Errorf("Mesh.PrimitiveCount not found")
+	}
+	recv := c10RecvName(fd)
+	// IndexSize from topology.go (same directory)
+	dir := filepath.Dir(fset.Position(file.Pos()).Filename)
+	tf, err := parser.ParseFile(fset, filepath.Join(dir, "topology.go"), nil, 0)
+	if err != nil {
+		return err
+	}
+	var isz *ast.FuncDecl
+	for _, d := range tf.Decls {
+		if f, ok := d.(*ast.FuncDecl); ok && f.Name.Name == "IndexSize" && f.Recv != nil {
+			isz = f
+		}
+	}
+	if isz == nil {
+		return fmt.Errorf("Topology.IndexSize not found")
+	}
+	sizes := map[string]string{}
+	var sizeOrder []string
+	if len(isz.Body.List) != 2 {
+		return c10err(fset, isz, "IndexSize: body is not `switch …; panic`")
+	}
+	sw, ok := isz.Body.List[0].(*ast.SwitchStmt)
+	if !ok || c10Key(sw.Tag) != c10RecvName(isz) {
+		return c10err(fset, isz, "IndexSize: no switch on the receiver")
+	}
+	for _, cl := range sw.Body.List {
+		cc := cl.(*ast.CaseClause)
+		if cc.List == nil || len(cc.Body) != 1 {
+			return c10err(fset, cc, "IndexSize: case of unknown shape")
+		}
+		r, ok := cc.Body[0].(*ast.ReturnStmt)
+		if !ok || len(r.Results) != 1 {
+			return c10err(fset, cc, "IndexSize: case does not return")
+		}
+		v, err := c10Expr(fset, r.Results[0], c10Env{})
+		if err != nil {
+			return err
+		}
+		for _, t := range cc.List {
+			sizes[c10Key(t)] = v
+			sizeOrder = append(sizeOrder, c10Key(t))
+		}
+	}
+	if len(fd.Body.List) != 2 {
+		return c10err(fset, fd, "PrimitiveCount: body is not `switch …; panic`")
+	}
+	sw, ok = fd.Body.List[0].(*ast.SwitchStmt)
+	if !ok || c10Key(sw.Tag) != recv+".topology" {
+		return c10err(fset, fd, "PrimitiveCount: no switch on the topology")
+	}
+	if es, ok := fd.Body.List[1].(*ast.ExprStmt); !ok || !strings.HasPrefix(c10Key(es.X), "panic(") {
+		return c10err(fset, fd, "PrimitiveCount: does not end in panic")
+	}
+	o.p("-- `Mesh.PrimitiveCount()` per topology, as a function of `len(m.indices)`; `Topology.IndexSize()` inlined")
+	o.p("namespace PrimitiveCount")
+	var topos []string
+	for _, cl := range sw.Body.List {
+		cc := cl.(*ast.CaseClause)
+		if cc.List == nil {
+			return c10err(fset, cc, "PrimitiveCount: default case")
+		}
+		for _, t := range cc.List {
+			topo := c10Key(t)
+			sz, ok := sizes[topo]
+			if !ok {
+				return c10err(fset, cc, "PrimitiveCount: topology %s has no IndexSize", topo)
+			}
+			env := c10Env{"len(" + recv + ".indices)": "len", recv + ".topology.IndexSize()": sz}
+			var body string
+			switch len(cc.Body) {
+			case 1:
+				r, ok := cc.Body[0].(*ast.ReturnStmt)
+				if !ok || len(r.Results) != 1 {
+					return c10err(fset, cc, "PrimitiveCount: case of unknown shape")
+				}
+				if body, err = c10Expr(fset, r.Results[0], env); err != nil {
+					return err
+				}
+			case 2:
+				is, ok1 := cc.Body[0].(*ast.IfStmt)
+				r2, ok2 := cc.Body[1].(*ast.ReturnStmt)
+				if !ok1 || !ok2 || is.Init != nil || is.Else != nil || len(is.Body.List) != 1 || len(r2.Results) != 1 {
+					return c10err(fset, cc, "PrimitiveCount: case of unknown shape")
+				}
+				r1, ok := is.Body.List[0].(*ast.ReturnStmt)
+				if !ok || len(r1.Results) != 1 {
+					return c10err(fset, cc, "PrimitiveCount: guarded case does not return")
+				}
+				cond, err := c10Cond(fset, is.Cond, env)
+				if err != nil {
+					return err
+				}
+				a, err := c10Expr(fset, r1.Results[0], env)
+				if err != nil {
+					return err
+				}
+				b, err := c10Expr(fset, r2.Results[0], env)
+				if err != nil {
+					return err
+				}
+				body = "if " + cond + " then " + a + " else " + b
+			default:
+				return c10err(fset, cc, "PrimitiveCount: case of unknown shape")
+			}
+			o.p("def indexSize_%s : Int := %s", topo, sz)
+			o.p("def count_%s (len : Int) : Int := %s", topo, body)
+			topos = append(topos, topo)
+		}
+	}
+	o.p("def topologies : List String := %s", c10StrList(topos))
+	o.p("end PrimitiveCount")
+	o.p("")
+	_ = sizeOrder
 	return nil
 }
